@@ -458,7 +458,7 @@ pub fn boundary_prompt_family(ctx: &Ctx, owner: &str) {
 }
 
 pub fn run(ctx: &Ctx) {
-    ctx.set_rule("L3: proptest-generated programs establish a random machine state with MOV/PUSH/POPF/SAHF/flag-control instructions and data definitions (eight pairwise distinct non-zero general registers, DS/ES/SS, all nine flags, stores), then issue print reg / print flags / print mem in the three range forms (start/length over 0,1,15,16,17,255,256, ranges ending at FFFFFh, DS-relative with DS up to FFFFh, backward ranges; constants in decimal/hex/binary), each print twice in a row, in the program or typed at an INT 3 prompt; stdout is tokenised and compared event by event with the reference machine; plus a family of ranges leaving the 1 MiB space, which must be reported and not dumped. Non-trivial = a run that printed registers (pairwise distinct, non-zero) or a memory range whose length is not a multiple of 16.");
+    ctx.set_rule("L3: proptest-generated programs establish a random machine state with MOV/PUSH/POPF/SAHF/flag-control instructions and data definitions (eight pairwise distinct non-zero general registers, DS/ES/SS, all nine flags, stores), then issue print reg / print flags / print mem in the three range forms (start/length over 0,1,15,16,17,255,256, ranges ending at FFFFFh, DS-relative with DS up to FFFFh, backward ranges; constants in decimal/hex/binary), each print twice in a row, in the program or typed at an INT 3 prompt; stdout is tokenised and compared event by event with the reference machine; plus a family of ranges leaving the 1 MiB space, which must be reported and not dumped. One program in four runs its print statements two or three times in a loop with DS, BX, a memory byte and the flags changed between the passes; one in three defines and calls procedures before it prints. Non-trivial = a run that printed registers (pairwise distinct, non-zero) or a memory range whose length is not a multiple of 16.");
     ctx.assume("layout (tabs, blank separators) is normalised; the 16-cells-per-row rule, four upper-case hex digits per register and 0/1 flags are enforced by the output parser");
     ctx.set_exhaustive(false);
     if !cli_available() {
